@@ -174,12 +174,49 @@ def source_shapes(T, shapes):
     rec(T)
 
 
+class ParseAbandoned(Exception):
+    """Raised *into* a parse that did not finish within PARSE_LIMIT_S (see guard)."""
+
+
+PARSE_LIMIT_S = 8.0
+ABANDONED = [0]
+
+
+class guard:
+    """A parse of hostile bytes can be asked for billions of entries that occupy no bytes (a count taken from a 32-bit
+    field, an inner dimension of 0): the library then loops without touching the stream and without end in sight.  That
+    is slow, not wrong, and nothing a property speaks about -- but it would stall the run.  The guard raises
+    ParseAbandoned in the parsing thread after a generous wall-clock limit; the outcome then is an error like any
+    other (the reference model answers such counts with 'data missing', so the two agree).  When the model reads the
+    input and the library is abandoned, judge_parse reports it: a reader that does not finish on readable input."""
+
+    def __enter__(self):
+        import ctypes
+        import threading
+
+        tid = threading.get_ident()
+
+        def fire():
+            ABANDONED[0] += 1
+            ctypes.pythonapi.PyThreadState_SetAsyncExc(ctypes.c_ulong(tid), ctypes.py_object(ParseAbandoned))
+
+        self.t = threading.Timer(PARSE_LIMIT_S, fire)
+        self.t.daemon = True
+        self.t.start()
+        return self
+
+    def __exit__(self, *a):
+        self.t.cancel()
+        return False
+
+
 def outcome(T, data, offset=0):
     """("ok", obj, tell) | ("err", exc, None)"""
     s = io.BytesIO(data)
     s.seek(offset)
     try:
-        obj = T(s)
+        with guard():
+            obj = T(s)
     except Exception as e:  # noqa: BLE001
         return ("err", e, None)
     return ("ok", obj, s.tell())
@@ -269,8 +306,13 @@ def eof_padding_variant(case, cfg, inp, offset, got):
 def judge_parse(ctx, case, cfgd, cfg, T, inp, offset=0, label="parse", sig_prefix=""):
     """Compare the real reader's outcome on (inp, offset) with the reference model.  Returns (lib outcome, expected)."""
     top = case["top"]
-    r = outcome(T, inp, offset)
     exp = expected_parse(case, cfg, inp, offset)
+    if "absurd_count" in exp[3]:
+        # hostile bytes ask for more than 100 000 entries: when the entries occupy bytes the input ends long before,
+        # when they do not the library loops for hours -- slow, not wrong, and not what this comparison is about
+        ctx.event("skipped:absurd-element-count")
+        return ("err", ParseAbandoned("not run: absurd element count"), None), exp
+    r = outcome(T, inp, offset)
     key = (case["text"], tuple(sorted(cfgd.items())), inp.hex(), offset)
     if exp[0] == "unsupported":
         ctx.event("model_unsupported")
@@ -303,6 +345,8 @@ def judge_parse(ctx, case, cfgd, cfg, T, inp, offset=0, label="parse", sig_prefi
         else:
             if "eof_partial" in exp[3] or "tail_padding_missing" in exp[3]:
                 ctx.event("accepted_error_on_partial_tail")
+            elif isinstance(r[1], ParseAbandoned):
+                viol("raises", "reader-does-not-finish-on-input-the-model-reads", limit_s=PARSE_LIMIT_S, want=want)
             else:
                 viol("raises", f"reader-raises-on-complete-input:{type(r[1]).__name__}", error=lib.exc_sig(r[1]),
                      want=want)
